@@ -209,12 +209,14 @@ where
     Ok(())
 }
 
-async fn drain_buffers(from: &mut IOBufStream, to: &mut IOBufStream) -> IoResult<()> {
+async fn drain_buffers(from: &mut IOBufStream, to: &mut IOBufStream) -> IoResult<usize> {
     let left_over = from.buffer();
+    let len = left_over.len();
     if !left_over.is_empty() {
         to.write_all(left_over).await?;
     }
-    to.flush().await
+    to.flush().await?;
+    Ok(len)
 }
 pub async fn copy_bidi(ctx: ContextRef, params: &IoParams) -> Result<(), Error> {
     let mut ctx_lock = ctx.write().await;
@@ -235,12 +237,19 @@ pub async fn copy_bidi(ctx: ContextRef, params: &IoParams) -> Result<(), Error> 
     let mut sdst = DstHalf::new("server");
     if let Some((mut client, mut server)) = streams {
         // Drain any buffers that may haven't been consumed or flushed.
-        drain_buffers(&mut client, &mut server)
+        // these bytes are relayed payload as well (data the peer sent right behind its handshake)
+        let early = drain_buffers(&mut client, &mut server)
             .await
             .context("failed to drain client buffers")?;
-        drain_buffers(&mut server, &mut client)
+        if early > 0 {
+            client_stat.incr_sent_bytes(early);
+        }
+        let early = drain_buffers(&mut server, &mut client)
             .await
             .context("failed to drain server buffers")?;
+        if early > 0 {
+            server_stat.incr_sent_bytes(early);
+        }
 
         // Get the naked streams without buffers.
         let client = client.into_inner().into_inner();
